@@ -429,6 +429,9 @@ func main() {
 		if c.dayChanged || os.Getenv("VERIF_C06_ONLY") == "interleaved" {
 			break
 		}
+		if only := os.Getenv("VERIF_C06_ONLY"); only != "" && !strings.HasPrefix(s.Name, only) {
+			continue // development aid: only the searches whose name starts with this
+		}
 		c.search(s)
 		if s.Depth > maxDepth {
 			maxDepth = s.Depth
